@@ -93,6 +93,21 @@ func (c *vfConc) send(b *vfConcBrowser, rw http.ResponseWriter, rec *httptest.Re
 	req := httptest.NewRequest(method, "http://app.example.test"+target, nil)
 	req.Header.Set("Accept", "text/html")
 	req.Header.Set("X-Vf-Req", id)
+	// every browser sits at its own network address and user agent (whatever the middleware keeps per client is exercised
+	// with many distinct clients at once); a quarter of the requests arrive from an address never seen before
+	seq := atomic.LoadInt64(&c.reqSeq)
+	h := 0
+	for _, ch := range b.email {
+		h = h*31 + int(ch)
+	}
+	addr := fmt.Sprintf("10.%d.%d.%d", (h>>16)&0xff, (h>>8)&0xff, h&0xff)
+	if seq%4 == 0 {
+		addr = fmt.Sprintf("172.16.%d.%d", (seq>>8)&0xff, seq&0xff)
+	}
+	req.RemoteAddr = fmt.Sprintf("%s:%d", addr, 40000+seq%20000)
+	req.Header.Set("X-Real-Ip", addr)
+	req.Header.Set("X-Forwarded-For", addr+", 192.0.2.7")
+	req.Header.Set("User-Agent", fmt.Sprintf("vf-browser/%d (%s)", h&0xffff, b.email))
 	for n, v := range b.jar {
 		req.AddCookie(&http.Cookie{Name: n, Value: v})
 	}
